@@ -21,26 +21,34 @@ SPEC = dict(
                  'Message nesting deeper than 500 (open finding F6) is generated only in the deepnest leg',
                  'the bench holds a reference to every session object, so a kicked client sees no EOF; detachment is read from the server; a witness kicked by a '
                  'privileged attacker is replaced and counted (unspecified_witness_kicked_by_privileged_client)',
-                 'ban/require commands reach no factory in the bench (sessions are attached with AddNewSession), so only the privilege check and the refusal are exercised',
+                 'in the privileged cases (1 in 6) the attackers connect by TCP to a listening port whose factory is a FilterSessionFactory, so ban/require commands reach '
+                 'the factory and new connections are matched against the hostile patterns; in the other cases sessions are attached with AddNewSession and only the refusal is exercised',
                  'RSS is the whole process (server + the harness clients, whose receive queues are emptied after every injected Message)',
                  'g++ 12 ASan/UBSan report what they claim to report'],
     wall_quick=3000,
     legs=[
-        Leg('regress', 'h_hostile', 'asan', opts={'mode': 'regress'}, quick=1, thorough=1, workers=1, cpu_budget=20, stall_wall=900, min_cases=1),
-        Leg('hostile', 'h_hostile', 'asan', opts={'mode': 'hostile', 'nmsg': 50}, quick=1280, thorough=64000, workers=16, cpu_budget=20, stall_wall=900),
+        Leg('regress', 'h_hostile', 'asan', opts={'mode': 'regress'}, quick=1, thorough=1, workers=1, leaks=True, cpu_budget=20, stall_wall=900, min_cases=1),
+        Leg('hostile', 'h_hostile', 'asan', opts={'mode': 'hostile', 'nmsg': 50}, quick=1280, thorough=64000, workers=16, leaks=True, cpu_budget=20, stall_wall=900),
         Leg('deepnest', 'h_hostile', 'asan', opts={'mode': 'deepnest'}, quick=2, thorough=2, workers=2, cpu_budget=20, stall_wall=900, min_cases=0),
         Leg('regexbomb', 'h_hostile', 'asan', opts={'mode': 'regexbomb'}, quick=5, thorough=5, workers=5, cpu_budget=20, stall_wall=900, min_cases=0),
     ],
-    min_stats={'regress': {'regress_f9_results_jettisoned': 4, 'regress_f31_answered': 2, 'regress_guards_survived': 1, 'pings_answered': 40},
-               'hostile': {'max_slow_client_queue_depth': 2, 'cases_with_queue_depth_ge_2': 900, 'pings_answered': 55000,
-                           'cell_jettres_keyfilter_q2': 10, 'cell_jettres_keyfilter_qmany': 100, 'jettres_with_filter_removed_queued_messages': 80,
-                           'cell_jettres_key_qmany': 50, 'cell_jettres_nokey_qmany': 30, 'cell_jetttrees_id_qmany': 50, 'cell_jetttrees_noid_q2': 10,
-                           'jetttrees_removed_queued_messages': 80, 'cell_supersede_subscriber_qmany': 500, 'cell_subscribe_existing_path_refilter': 300,
-                           'cell_removeparams_removed_many': 150, 'reply_indexupdated': 800, 'reply_datatrees': 700, 'reply_accessdenied': 500,
-                           'reply_unimplemented': 500, 'reply_user_message_delivered': 1000, 'blind_messages': 8000, 'max_batch_nesting': 150,
-                           'max_message_nesting': 450, 'max_node_name_length': 10000, 'max_setdata_path_segments': 2000,
-                           'recipe_results_jettison': 600, 'recipe_trees_jettison': 300, 'recipe_supersede': 300, 'recipe_refilter': 100, 'recipe_params': 300,
-                           'recipe_index': 300, 'recipe_removedata': 150, 'recipe_getdata': 150, 'recipe_route': 150, 'recipe_batch': 150, 'recipe_deeppath': 150,
-                           'recipe_longnames': 300, 'recipe_privileged': 150, 'recipe_churn': 150, 'recipe_nested': 150, 'recipe_setdatatrees': 100, 'recipe_mix': 300,
-                           'cases_with_privileged_clients': 100}},
+    min_stats={'regress': {'regress_f9_results_jettisoned': 4, 'regress_f31_answered': 2, 'regress_guards_survived': 1, 'regress_frame_builder_checked': 1, 'regress_factory_reached': 1, 'pings_answered': 40},
+               # lower bounds = about 60 % of the minimum seen over seeds 1-3 of the quick tier
+               'hostile': {'max_slow_client_queue_depth': 2, 'cases_with_queue_depth_ge_2': 1000, 'pings_answered': 55000, 'cases_drained': 1100,
+                           'cell_jettres_keyfilter_q1': 50, 'cell_jettres_keyfilter_q2': 40, 'cell_jettres_keyfilter_qmany': 110, 'jettres_with_filter_removed_queued_messages': 110,
+                           'cell_jettres_key_q2': 25, 'cell_jettres_key_qmany': 70, 'cell_jettres_nokey_q2': 15, 'cell_jettres_nokey_qmany': 60,
+                           'cell_jettres_key_with_queued_removal_notices': 70, 'jettres_key_from_queued_path': 500, 'jettres_removed_queued_messages': 200,
+                           'cell_jetttrees_id_q1': 90, 'cell_jetttrees_id_q2': 75, 'cell_jetttrees_id_qmany': 95, 'cell_jetttrees_noid_q1': 35, 'cell_jetttrees_noid_q2': 30,
+                           'cell_jetttrees_noid_qmany': 35, 'jetttrees_removed_queued_messages': 200,
+                           'cell_supersede_subscriber_q1': 120, 'cell_supersede_subscriber_q2': 120, 'cell_supersede_subscriber_qmany': 1000,
+                           'cell_subscribe_existing_path_refilter': 1000, 'cell_removeparams_removed_1': 350, 'cell_removeparams_removed_many': 350,
+                           'reply_indexupdated': 2000, 'reply_datatrees': 1400, 'reply_accessdenied': 1400, 'reply_unimplemented': 1800, 'reply_dataitems_with_removals': 1000,
+                           'reply_user_message_delivered': 2000, 'reply_pong_to_attacker': 250, 'blind_messages': 7000, 'filter_hostile': 2800, 'filter_deep_500': 500,
+                           'max_batch_nesting': 150, 'max_message_nesting': 450, 'max_node_name_length': 10000, 'max_setdata_path_segments': 2000,
+                           'pat_10k_clause': 500, 'pat_200_deep_path': 500, 'pat_long_alternation': 500, 'pat_huge_range': 500, 'pat_stacked': 2900,
+                           'mutation_dropped_step': 1000, 'mutation_swapped_sender': 1000, 'mutation_kind_0': 400, 'mutation_kind_2': 400, 'mutation_kind_5': 400, 'mutation_kind_6': 400,
+                           'recipe_results_jettison': 1000, 'recipe_trees_jettison': 650, 'recipe_supersede': 650, 'recipe_refilter': 300, 'recipe_params': 600,
+                           'recipe_index': 700, 'recipe_removedata': 300, 'recipe_getdata': 300, 'recipe_route': 300, 'recipe_batch': 300, 'recipe_deeppath': 300,
+                           'recipe_longnames': 650, 'recipe_privileged': 300, 'recipe_churn': 300, 'recipe_nested': 300, 'recipe_setdatatrees': 300, 'recipe_mix': 650,
+                           'cases_with_privileged_clients': 110, 'tcp_clients_accepted_through_filter_factory': 250, 'probe_connections_after_ban_commands': 50}},
 )
